@@ -56,7 +56,7 @@ def gen_dataset(s: Choices, vdtype: str, tier: str, max_n: int = 200, allow_mult
     for kk in ds["key_kinds"]:
         gs.append(min(g, 2) if kk == "bool" else g)
     ds["g"] = gs
-    ncols = 1 + s.weighted([(6, 0), (2, 1), (1, 2)])
+    ncols = 1 + s.weighted([(5, 0), (3, 1), (1, 2)])
     ncols = min(ncols, max_cols)
     cols = []
     for c in range(ncols):
